@@ -615,7 +615,11 @@ func mutate(r *common.Rand, s string) string {
 var builtinNames []string
 
 var sweepLits = []string{"null", "true", "0", "-1", "1.5", "nan", "infinite", "-infinite", "1e1000", "\"\"", "\"a\"", "\"\\u00ff\"", "[]", "[0]", "[1,2]", "[3,2,1]", "[[1],[2],[3]]", "{}", "{\"a\":1}",
-	"9223372036854775807", "-9223372036854775808", "100000000000000000000", "2147483648", "[\"a\",0]", "{\"start\":0,\"end\":-1}", "\"%Z\"", "\"(\"", "[null,null,null,null]", "[[0,1],[1]]", "\"abc\""}
+	"9223372036854775807", "-9223372036854775808", "100000000000000000000", "2147483648", "[\"a\",0]", "{\"start\":0,\"end\":-1}", "\"%Z\"", "\"(\"", "[null,null,null,null]", "[[0,1],[1]]", "\"abc\"",
+	// number arrays of EVERY length up to one past the longest a native destructures (broken-down
+	// times have 8 fields, optional ones from the 4th on): a guard that is off by one is only met
+	// by the one length it forgets
+	"[2024,1,2,3]", "[2024,1,2,3,4]", "[2024,1,2,3,4,5.5]", "[2024,1,2,3,4,5,6]", "[2024,1,2,3,4,5,6,7]", "[2024,1,2,3,4,5,6,7,8]"}
 var sweepCore = []string{"null", "0", "-1", "nan", "\"a\"", "[]", "[1]", "[3,2,1]", "{\"a\":1}", "1e1000", "100000000000000000000", "[[1],[2]]"}
 
 var inCore = func() map[string]bool {
